@@ -107,6 +107,10 @@ def run_pipeline(tier, seed, log=print):
         s = gen_random.make(seed * 1000003 + i, calm=(mode == 0), allow_size=(mode == 3))
         s["driver"] = "random"
         scheds.append(s)
+    for i in range(nrand // 10):
+        s = gen_random.make_multi(seed * 1000003 + 500000 + i)
+        s["driver"] = "random-multipool"
+        scheds.append(s)
     # -- 3. execute ------------------------------------------------------------------------------------------
     t1 = time.time()
     out = common.execute_all(scheds)
@@ -117,7 +121,12 @@ def run_pipeline(tier, seed, log=print):
         if not r["ok"]:
             res["harness_errors"].append({"sched": {"cfg": s["cfg"], "cmds": s["cmds"]}, "err": r["err"]})
             continue
-        good.append((s, r))
+        npools = len(s["cfg"]["pools"]) if "pools" in s["cfg"] else 1
+        if npools == 1:
+            good.append((s, r))
+        else:       # one trace per pool: each pool is judged on its own records (independence is part of C11)
+            for tr in common.split_pools(r["trace"], npools):
+                good.append((s, dict(r, trace=tr)))
     # model conformance of TLC-generated schedules (lock-step): drift is reported, never a verdict
     tl = [(s, r) for s, r in good if s["driver"] == "tlc"]
     res["conformance"] = {"replayed": len(tl), "agree": sum(1 for s, r in tl if r["drift"] is None and r["skipped"] == 0),
